@@ -12,7 +12,12 @@ T3  monitor                   : every attempt compared byte for byte with what w
                                 message while recipients are pending (by the recording target's own answers, minus the
                                 recipients the queue logged a terminal failure for): a history's attempt step that does not
                                 take place, or a spool entry gone / incomplete while somebody is pending, is
-                                C10/pending-message-dropped; header/body files altered at rest C10/spool-content-changed
+                                C10/pending-message-dropped; header/body files altered at rest C10/spool-content-changed;
+                                failure reports (bounce pipeline attached) are events between attempts: every attempt after
+                                a report - of the same queue or, for one source feeding TWO queues with the same metadata
+                                pointer and header value, of the other queue - is compared like any other, and the header
+                                value / metadata object the source still holds must be what was accepted
+                                (C10/shared-header-changed, C10/shared-metadata-changed)
 """
 import os
 import re
@@ -76,14 +81,21 @@ def run(c):
         "connection state absent / anonymous / authenticated (user name + password with JSON-escaped characters, AUTH= parameter); "
         "histories of 1-10 attempts against a partial or atomic target (per recipient: delivered / temporary at body / temporary or permanent at RCPT / nobody accepted) with 0-8 restarts (also idle ones, also between Body and Commit (`r` first), "
         "also after a Commit answered by a queue that is shutting down, i.e. an ACCEPTED message restarted before its first attempt (`R` first)); "
+        "bounce pipeline absent / accepting / refusing (80% attached): every permanent failure of a non-null-sender message makes the queue generate a failure report between attempts "
+        "(the model predicts when, to whom, in which format, quoting which header, and when generation fails for want of an ASCII form of a Unicode local part); "
+        "18% of the cases (and two thirds of a 64-case bounce grid) feed TWO queue instances from one source - same metadata pointer, same header value, same body, own recipients and histories - "
+        "queue A running its first attempts and reports before queue B's Commit; bounce grid: 8 history shapes with a report after the in-memory attempt / after attempts from the spool / in every attempt / "
+        "right before a restart / with recipients still pending, given-up recipient or sender with a Unicode local part x SMTPUTF8 on/off, OriginalRcpts chains, "
+        "headers with Bcc / Resent-Bcc / Return-Path / Received / DKIM-Signature / MIME fields in any position under a Received field added by maddy; "
         "an edge grid on top: body sizes 0, 1, 2, 4095-4097, 32767-32769, 1 MiB-1 .. 1 MiB+1 x Memory/FileBuffer x header with no field at all (blob = CRLF) / generated x six history shapes "
         "(R.attempts, R.r.attempts, all-deferred.r.attempts, atomic-deferred.partial-deferred.r.r.attempts, r.attempts, all-deferred.r at rest); "
         "(d) the same behind a real SMTP endpoint and pipeline over TCP (AUTH PLAIN, SMTPUTF8, REQUIRETLS, BODY=8BITMIME, TLS-Required: No header, dot-stuffed DATA, bodies above the 1 MiB spill threshold, addresses that are not valid UTF-8; "
-        "10% with the queue shut down right before Commit and restarted before the first attempt; the same edge grid: empty body, a lone line end, 4 KiB / 32 KiB / 1 MiB boundaries, client header = CRLF only); "
+        "10% with the queue shut down right before Commit and restarted before the first attempt; bounce pipeline attached in 80%, Bcc field from the client in 20%; the same edge grid: empty body, a lone line end, 4 KiB / 32 KiB / 1 MiB boundaries, client header = CRLF only); "
         "distinct = distinct op lines",
         explanation="theorems over all headers, bodies, envelopes and histories; decide over the regenerated field table and code skeleton; "
         "models tied to textproto and queue.go by differential runs; the monitor compares every attempt with what was accepted, greps the spool for the credentials, "
-        "and requires that a message with pending recipients is attempted when the history says so and is complete and unaltered in the spool whenever the queue is at rest",
+        "and requires that a message with pending recipients is attempted when the history says so and is complete and unaltered in the spool whenever the queue is at rest; "
+        "failure reports generated between attempts (and by a second queue sharing header value and metadata) must leave every later attempt and the source's own header / metadata as accepted",
         search=search,
     )
 
